@@ -95,6 +95,7 @@ def generate(rng, tier, index):
             "f": rng.randint(2, 3),
             "bundle": bundles.gen_bundle(rng, recipe["n"] + 3, allow=allow, p_each=p_each),
             "no_grad": rng.random() < (0.8 if recipe["family"] == "kissgp" else 0.2),
+            "moved": rng.random() < 0.4,
         }
 
     def gen_bad(node=None):
@@ -281,7 +282,7 @@ def diff_source(before, model):
     return out
 
 
-def fantasy_data(recipe, node, op):
+def fantasy_data(recipe, node, op, xcache=None):
     """Materialise fantasy inputs/targets/noise and the independently concatenated full data."""
     fam = recipe["family"]
     d = recipe["d"]
@@ -302,6 +303,18 @@ def fantasy_data(recipe, node, op):
         xf = zoo.rand(op.get("xseed", op["seed"]), *nb, m, d).expand(*in_b, m, d)
     else:
         xf = zoo.rand(op.get("xseed", op["seed"]), *in_b, m, d)
+        if xcache is not None and op.get("xseed", op["seed"]) != op["seed"]:
+            # sibling fantasies: the caller passes the very tensor OBJECT of the earlier creation again (a candidate set
+            # kept in a variable) - optionally after updating it in place (an optimiser step on the candidates)
+            key = (op["xseed"], tuple(in_b), m)
+            if key in xcache:
+                xf = xcache[key]
+                if op.get("moved"):
+                    with torch.no_grad():
+                        xf.copy_(zoo.rand(op["seed"] + 13, *in_b, m, d))
+            xcache[key] = xf
+        elif xcache is not None:
+            xcache[(op["seed"], tuple(in_b), m)] = xf
     # targets: a smooth function + per-fantasy noise
     base_x = xf if len(in_b) == len(tg_b) else xf.expand(*tg_b, m, d)
     yf = zoo.make_targets(op["seed"] + 1, base_x, tasks=tasks)
@@ -356,6 +369,7 @@ def execute(history):
         nodes = [Node(root, tuple(t.detach().clone() for t in root.train_inputs), root.train_targets.detach().clone(), fixed, 0, None)]
         nodes[0].sd = root_sd
         sketch = []
+        xcache = {}
         created = predicted_fantasy = False
 
         def pick(op):
@@ -441,7 +455,7 @@ def execute(history):
                 try:
                     if k == "fantasize":
                         tag = "fantasize[%s,d%d]" % (op["pattern"], min(node.depth, 2))
-                        inputs_f, yf, noise_f, full_in, full_tg, full_noise = fantasy_data(recipe, node, op)
+                        inputs_f, yf, noise_f, full_in, full_tg, full_noise = fantasy_data(recipe, node, op, xcache)
                         kw = {} if noise_f is None else {"noise": noise_f}
                         arg_in = inputs_f if len(inputs_f) > 1 else inputs_f[0]
                         with bundles.entered(op.get("bundle", [])):
